@@ -1,8 +1,10 @@
 import SockModel.Model.UdpLemmas
+import SockModel.Spec.C09
 /-!
 # C09  UDP datagrams: boundaries, payload, source and destination preserved
 
-Property theorems only (model: `Model/Udp.lean`, invariants: `Model/UdpLemmas.lean`).
+Property theorems only (model: `Model/Udp.lean`, invariants: `Model/UdpLemmas.lean`; the executable
+property predicate, the composed model `sysStep` and the proof of `spec_holds_on_model`: `Spec/C09.lean`).
 Sockets are named by the ordinal of their bound address.  The network assumption
 (loopback, receive queue not overrun: a successful `sendto` appends the datagram
 with the sender's bound address to the destination's FIFO) is the definition of
@@ -179,6 +181,14 @@ theorem asyncSendTo_future_truth (acts : List TAct) :
       · rw [h.ret]; exact hm
       · obtain ⟨e, he, rfl⟩ := List.mem_map.mp hm
         rw [h.futq e he] at hr; simp [Fut.resolved] at hr
+
+/-- the predicate `./check C09` evaluates on the implementation's observations (`Spec/C09.lean`:
+`specStep` with `specSendTo`, `specReport`, `specEv`, `specRecv`, `specState`) accepts every trace of
+the composed model (`sysStep`: `sendTo` + datagram network + per-socket `SendToQ` + the driver's
+dispatch order), for every history of operations of any length with arbitrary arguments and OS
+answers; operations the harness does not perform are no-ops of the model.  No hypothesis. -/
+theorem spec_holds_on_model (history : List Op) : ∃ s, specRun {} (modelTrace {} history) = .ok s :=
+  model_satisfies_spec history
 
 /-! ### non-vacuity -/
 
